@@ -5,8 +5,8 @@ CHECK = dict(
     rule="round trip: image graph (imggen, as C03, incl. OCI manifests without the optional mediaType field) x source (registry model / OCI layout) x gzip x export-ref override x source ref (tag / tag+digest) x target "
          "(registry model, rejecting manifests with absent references or not / OCI layout) x target pre-state (empty / partial / stale tag) x 0-3 metamorphic archive "
          "variants (entry order, ./ prefix, dropped directory members, members replaced by symlinks / hard links / symlink chains to a moved copy in three placements, "
-         "unrelated extra members, outer gzip, two-image archive with selection by name / tag / digest). Docker: harness-built legacy / content-addressed / OCI-flavoured "
-         "`docker save` archives with real tar layers stored plain / gzip / zstd, 1-3 images, duplicate layers (symlink / copy / same path), selection by name, plus the "
+         "unrelated extra members, outer gzip as one or several gzip members, two-image archive with selection by name / tag / digest). Docker: harness-built legacy / content-addressed / OCI-flavoured "
+         "`docker save` archives with real tar layers stored plain / gzip (1-4 members, incl. empty ones) / zstd, 1-3 images, duplicate layers (symlink / copy / same path), selection by name, plus the "
          "same order / prefix / link / gzip variations. Non-trivial = graph has an index, a shared/duplicate blob or a blob-typed index entry, or the case imports at "
          "least one archive variant (Docker: the picked image has a layer); distinct by (graph shape, endpoints, options, pre-state, variant feature sets) resp. "
          "(style, image/layer shape, selection, duplicate style, target, variant feature set).",
